@@ -16,7 +16,8 @@ RULE = ('Hypothesis-generated op histories (<= 60 ops) interpreted against a lis
         'record with an index >= the last one delivered in the current seek epoch (no duplicate, reorder, torn, phantom); after the history '
         'each follower is drained and must have returned every record at or after its epoch start whose file is still on disk; after every '
         'write: files total <= max(total_size, newest file), the written file exists, no existing file content was overwritten. '
-        'Non-trivial = >= 1 roll-over and >= 1 read after it. Distinct = distinct history.')
+        'Non-trivial = >= 1 roll-over and >= 1 read after it. Distinct = distinct history.'
+        ' Also: given timestamps with digits below the microsecond, record bodies with control characters other than the newline delimiter.')
 ASSUMPTIONS = ['one writer per log (as the module requires); default flush=True; file-system faults are external deletions only',
                'writer reopen happens with the clock past the newest file (the constructor refuses otherwise by design)']
 BUDGET = {'quick': 45, 'thorough': 900}
@@ -41,6 +42,7 @@ op_st = st.one_of(
 case_st = st.fixed_dictionaries({
     'mode': st.sampled_from(['txt', 'json', 'binl', 'bin']),
     'pad': st.sampled_from(['x', 'x', 'ctl']),
+    't0': st.sampled_from([1_760_000_000.0, 1_760_000_000.0, 1_096_913_331.0]),    # in 2004 a quarter of all microsecond values do not survive int(us / 1e6 * 1e6)
     'file_size': st.one_of(st.integers(1, 200), st.sampled_from([1, 10, 64, 100])),
     'total_size': st.one_of(st.integers(1, 1500), st.sampled_from([50, 300, 10**9, 10**9])),
     'readers': st.lists(st.sampled_from(['shared', 'auto', 'manual']), min_size=1, max_size=3, unique=True),
